@@ -196,7 +196,10 @@ class PatternedDT(Generic[DT]):
                               'except (ValueError, TypeError):',
                               '  dt = default_load_func(date_string, cls, raise_=False)',
                               '  if dt is not None:',
-                              '    return dt']
+                              '    return dt',
+                              # neither the pattern nor ISO-8601: re-raise
+                              # the `strptime` error (naming the pattern)
+                              '  raise']
             else:
                 body_lines.append('return dt.time()')
         elif issubclass(cls, datetime):
@@ -216,7 +219,10 @@ class PatternedDT(Generic[DT]):
                               'except (ValueError, TypeError):',
                               '  dt = default_load_func(date_string, cls, raise_=False)',
                               '  if dt is not None:',
-                              '    return dt']
+                              '    return dt',
+                              # neither the pattern nor ISO-8601: re-raise
+                              # the `strptime` error (naming the pattern)
+                              '  raise']
 
             body_lines.append('return cls(dt.hour, dt.minute, dt.second, '
                               'dt.microsecond, fold=dt.fold)')
